@@ -613,6 +613,9 @@ func notReflectable(t *gty) string {
 // implementation registry, and ops must not see each other's registrations.
 func exec(c px.Context, op string, args []sx.Sexp) (r core.Result) {
 	r = core.Result{Out: "bad-op", Pred: "FAIL harness-bad-op " + op}
+	if op == "embed" {
+		return execEmbed(c, args)
+	}
 	if len(args) != 2 {
 		return
 	}
@@ -1657,6 +1660,7 @@ func randType(r *rand.Rand, depth int, withStruct bool) *gty {
 }
 
 func gen(g *core.G) {
+	genEmbed(g)
 	nraw := 0
 	emit := func(t *gty, v string) {
 		if t.has("struct") {
